@@ -239,14 +239,22 @@ class Builder:
             os.replace(binary + ".tmp", binary)
             self.log("  linked", binary)
             self.prune_bins(keep=bindir)
+        else:
+            try:
+                os.utime(bindir)
+            except OSError:
+                pass
         return binary
 
     def prune_bins(self, keep):
         root = os.path.join(CACHE, "bin")
         ents = sorted((os.path.getmtime(os.path.join(root, d)), d) for d in os.listdir(root))
-        for _, d in ents[:-6]:
+        # binaries are touched on every use (see below); one that was used within the last two hours may belong
+        # to a check that is still running against another checkout, so it is never removed
+        now = time.time()
+        for mt, d in ents[:-6]:
             p = os.path.join(root, d)
-            if p != keep:
+            if p != keep and now - mt > 7200:
                 subprocess.run(["rm", "-rf", p])
 
 
@@ -305,6 +313,10 @@ def build(repo="/repo", san=False, quiet=True):
     if os.path.exists(stamp):
         binary = open(stamp).read().strip()
         if os.path.exists(binary):
+            try:
+                os.utime(os.path.dirname(binary))
+            except OSError:
+                pass
             return binary
     lock = open(os.path.join(CACHE, "build.lock"), "w")
     fcntl.flock(lock, fcntl.LOCK_EX)
